@@ -690,9 +690,14 @@ def arg_sweep(repo, kinds=None):
     reps = []
     import diffhints
     for kind in SWEEP_KINDS + diffhints.expr_sources(repo)[:12]:
-        v = _e(kind[1:]) if kind.startswith("*") else _e(kind)
+        try:
+            v = _e(kind[1:]) if kind.startswith("*") else _e(kind)
+        except SyntaxError:
+            continue
         nm = "Starred" if kind.startswith("*") else type(v).__name__
         if kinds is None or nm in kinds:
+            if nm == "Constant":
+                nm = "Constant-" + type(v.value).__name__        # one representative per Python type of constant (str, bytes, int, float, NoneType, bool, ellipsis)
             reps.append((kind, nm))
     for name, src in seeds(repo):
         tree = ast.parse(src)
